@@ -50,6 +50,11 @@ def build(tier, seed):
         i_.name = i_.name.replace("c10_t_", "c11_t_")
         i_.invocation = i_.invocation.replace("c10_t_", "c11_t_")
         I.append(i_)
+    # long file names (around and beyond the 512-byte request size): encoded in full
+    for kind, flen in ([(1, 505), (2, 600)] if tier == "quick" else [(1, 495), (1, 505), (2, 512), (2, 600), (1, 2000)]):
+        nm = "c11_long_%s_f%d" % ("rrq" if kind == 1 else "wrq", flen)
+        I.append(Inst(nm, "packet", "c11_long!(%s, %d, %d, 24);" % (nm, kind, flen), "c11_long",
+                      {"kind": kind, "filename": "'a' x %d (concrete)" % flen, "mode": "octet", "options": "blksize=8"}, timeout=600))
     for r in lay:
         I.append(request(*r, rt=False))
     for r in rt:
